@@ -554,8 +554,13 @@ def _to_shape_list(region_list, coordinate_system='fk5'):
                 new_coord.append(u.Quantity(val.y, u.dimensionless_unscaled))
             else:
                 frame = frame_transform_graph.lookup_name(coordsys)
-                new_coord.append(Angle(val.transform_to(frame).spherical.lon))
-                new_coord.append(Angle(val.transform_to(frame).spherical.lat))
+                # transform the coordinate frame (not the SkyCoord,
+                # which keeps non-default frame attributes such as the
+                # equinox) to the output frame, which is read back with
+                # its default attributes
+                coord_out = val.frame.transform_to(frame())
+                new_coord.append(Angle(coord_out.spherical.lon))
+                new_coord.append(Angle(coord_out.spherical.lat))
 
         meta = dict(region.meta)
         meta.update(region.visual)
